@@ -1,10 +1,708 @@
-use crate::worker::Ctx;
+//! C10 / C11 / C14 (and the node-identity half of C13): manifests generated
+//! from abstract descriptions, under systematically varied spellings, loaded
+//! by the real loader and compared with a reference loader.
+
+use crate::worker::{catch, Ctx, Tier};
+use n2::verif::GraphDump;
+use serde_json::{json, Value};
+use std::collections::BTreeMap;
+use vcore::enumerate::{for_deviations, for_product};
+use vcore::refmanifest::*;
 use vcore::report::ShardResult;
 
-pub fn run(_ctx: &mut Ctx) -> ShardResult {
-    unimplemented!("engine load")
+pub fn jobs_c10(tier: Tier) -> Vec<(String, u64)> {
+    vec![
+        (format!("load:shapes:{}", tier.pick(1, 2)), 16),
+        (format!("load:attrs:{}", tier.pick(1, 2)), 16),
+        (format!("load:seq:{}:{}", tier.pick(2, 3), tier.pick(1, 1)), 16),
+        ("load:pairs".into(), 16),
+    ]
 }
 
-pub fn jobs_nodeid(_tier: crate::worker::Tier) -> Vec<(String, u64)> {
-    vec![]
+pub fn jobs_c11(tier: Tier) -> Vec<(String, u64)> {
+    vec![(format!("load:scope:{}", tier.pick(4, 5)), 16)]
+}
+
+pub fn jobs_c14(tier: Tier) -> Vec<(String, u64)> {
+    vec![(format!("load:dups:{}", tier.pick(3, 3)), 16)]
+}
+
+pub fn jobs_nodeid(_tier: Tier) -> Vec<(String, u64)> {
+    vec![("load:nodeid".into(), 8)]
+}
+
+/// Token lists of all files of a set, plus where each file's choices start.
+struct Spelled {
+    names: Vec<String>,
+    toks: Vec<Vec<Tok>>,
+    radices: Vec<usize>,
+    starts: Vec<usize>,
+}
+
+fn spell_set(set: &ManifestSet) -> Spelled {
+    let mut s = Spelled {
+        names: Vec::new(),
+        toks: Vec::new(),
+        radices: Vec::new(),
+        starts: Vec::new(),
+    };
+    for (name, stmts) in &set.files {
+        let t = file_tokens(stmts);
+        s.names.push(name.clone());
+        s.starts.push(s.radices.len());
+        s.radices.extend(radices(&t));
+        s.toks.push(t);
+    }
+    s
+}
+
+struct Rendered {
+    texts: Vec<String>,
+    lines: BTreeMap<String, BTreeMap<usize, usize>>,
+}
+
+fn render_set(s: &Spelled, choice: &[usize]) -> Rendered {
+    let mut r = Rendered {
+        texts: Vec::new(),
+        lines: BTreeMap::new(),
+    };
+    for (i, t) in s.toks.iter().enumerate() {
+        let end = s.starts.get(i + 1).copied().unwrap_or(s.radices.len());
+        let (text, lines) = render(t, &choice[s.starts[i]..end]);
+        r.lines.insert(s.names[i].clone(), lines);
+        r.texts.push(text);
+    }
+    r
+}
+
+fn compare_build(i: usize, n: &n2::verif::BuildDump, r: &RefBuild, check_location: bool) -> Option<String> {
+    macro_rules! cmp {
+        ($field:literal, $a:expr, $b:expr) => {
+            if $a != $b {
+                return Some(format!("build {}: {} is {:?}, expected {:?}", i, $field, $a, $b));
+            }
+        };
+    }
+    if check_location {
+        cmp!("location", n.location, r.location);
+    }
+    cmp!("outs", n.outs, r.outs);
+    cmp!("explicit out count", n.explicit_outs, r.explicit_outs);
+    cmp!("ins", n.ins, r.ins);
+    cmp!("explicit in count", n.explicit_ins, r.explicit_ins);
+    cmp!("implicit in count", n.implicit_ins, r.implicit_ins);
+    cmp!("order-only in count", n.order_only_ins, r.order_only_ins);
+    cmp!("command", n.cmdline, r.cmdline);
+    cmp!("description", n.desc, r.desc);
+    cmp!("depfile", n.depfile, r.depfile);
+    cmp!("deps=msvc", n.parse_showincludes, r.parse_showincludes);
+    cmp!("rspfile", n.rspfile, r.rspfile);
+    cmp!("pool", n.pool, r.pool);
+    cmp!("hide_success", n.hide_success, r.hide_success);
+    cmp!("hide_progress", n.hide_progress, r.hide_progress);
+    None
+}
+
+fn compare_graph(n: &GraphDump, r: &RefGraph) -> Option<String> {
+    if n.builds.len() != r.builds.len() {
+        return Some(format!("{} build statements loaded, expected {}", n.builds.len(), r.builds.len()));
+    }
+    for (i, (a, b)) in n.builds.iter().zip(&r.builds).enumerate() {
+        if let Some(d) = compare_build(i, a, b, true) {
+            return Some(d);
+        }
+    }
+    if n.defaults != r.defaults {
+        return Some(format!("defaults are {:?}, expected {:?}", n.defaults, r.defaults));
+    }
+    if n.pools != r.pools {
+        return Some(format!("pools are {:?}, expected {:?}", n.pools, r.pools));
+    }
+    if n.builddir != r.builddir {
+        return Some(format!("builddir is {:?}, expected {:?}", n.builddir, r.builddir));
+    }
+    // Internal consistency of the file table: one node per name, producer and
+    // dependents agree with the statements.
+    let mut seen = std::collections::BTreeSet::new();
+    for (name, _, _) in &n.files {
+        if !seen.insert(name) {
+            return Some(format!("two graph nodes named {:?}", name));
+        }
+    }
+    for (bi, b) in n.builds.iter().enumerate() {
+        for o in &b.outs {
+            match n.files.iter().find(|f| f.0 == *o) {
+                Some(f) if f.1 == Some(bi) => {}
+                other => return Some(format!("output {:?} of build {} has producer {:?}", o, bi, other.map(|f| f.1))),
+            }
+        }
+        for inp in &b.ins {
+            match n.files.iter().find(|f| f.0 == *inp) {
+                Some(f) if f.2.contains(&bi) => {}
+                _ => return Some(format!("input {:?} of build {} does not list it as dependent", inp, bi)),
+            }
+        }
+    }
+    None
+}
+
+fn error_matches(msg: &str, e: &RefError) -> bool {
+    match e {
+        RefError::UnknownRule(r) => msg.contains(&format!("unknown rule {:?}", r)),
+        RefError::DuplicateOutput { name, first, second } => {
+            msg.contains(&format!("{}: {:?} is already an output at {}", second, name, first))
+        }
+        RefError::InvalidDeps(d) => msg.contains(&format!("invalid deps attribute {:?}", d)),
+        RefError::RspfileMismatch => msg.contains("rspfile and rspfile_content need to be both specified"),
+        RefError::EmptyPath => msg.contains("empty"),
+        RefError::MissingInclude(p) => msg.contains(&format!("read {}", p)),
+        RefError::IncludeCycle(_) => msg.contains("cycle") || msg.contains("recursi"),
+    }
+}
+
+struct Checker<'a> {
+    res: &'a mut ShardResult,
+    job: String,
+    last_written: BTreeMap<String, String>,
+}
+
+impl<'a> Checker<'a> {
+    fn write_children(&mut self, s: &Spelled, r: &Rendered) {
+        for i in 1..s.names.len() {
+            let name = &s.names[i];
+            if self.last_written.get(name) != Some(&r.texts[i]) {
+                std::fs::write(name, &r.texts[i]).expect("write included file");
+                self.last_written.insert(name.clone(), r.texts[i].clone());
+            }
+        }
+    }
+
+    /// Loads one spelling and compares it with the reference.  Returns the
+    /// dump when it loaded and matched.
+    fn check(&mut self, set: &ManifestSet, s: &Spelled, choice: &[usize], family: &str, id: &Value) -> Option<GraphDump> {
+        self.res.evaluations += 1;
+        let r = render_set(s, choice);
+        self.write_children(s, &r);
+        let expected = ref_load(set, &r.lines);
+        let text = &r.texts[0];
+        let got = catch(|| n2::verif::load_bytes("build.ninja", text.as_bytes()));
+        let texts = r.texts.clone();
+        let names = s.names.clone();
+        let job = self.job.clone();
+        let id = id.clone();
+        let choice_v = choice.to_vec();
+        let replay = move || {
+            json!({"job": job, "id": id, "choice": choice_v, "files": names.iter().zip(texts.iter()).map(|(n, t)| json!([n, t])).collect::<Vec<_>>()})
+        };
+        let nondefault = choice.iter().filter(|&&c| c != 0).count();
+        match (got, expected) {
+            (Err(p), _) => {
+                self.res.violation(
+                    &p.key(),
+                    || format!("loading panicked: {} at {}\n--- build.ninja\n{}", p.message, p.location, text),
+                    replay,
+                );
+                None
+            }
+            (Ok(Ok(dump)), Ok(refg)) => match compare_graph(&dump, &refg) {
+                None => {
+                    if nondefault > 0 || family != "shapes" {
+                        self.res.nontrivial += 1;
+                    }
+                    self.res.outcome(&format!("{}:ok-{}-builds", family, dump.builds.len()));
+                    Some(dump)
+                }
+                Some(diff) => {
+                    // Classify: does n2 agree with the variant in which include
+                    // does not extend the includer's scope?
+                    let alt = ref_load_with(set, &r.lines, false);
+                    let key = match alt {
+                        Ok(a) if compare_graph(&dump, &a).is_none() => {
+                            "include-does-not-extend-includer-scope".to_string()
+                        }
+                        _ => format!("{}:graph-differs-from-declared", family),
+                    };
+                    self.res.violation(
+                        &key,
+                        || format!("{}\n--- build.ninja\n{}", diff, text),
+                        replay,
+                    );
+                    None
+                }
+            },
+            (Ok(Err(e)), Ok(_)) => {
+                let msg = e.to_string();
+                self.res.violation(
+                    &format!("{}:valid-manifest-rejected", family),
+                    || format!("rejected with {:?}\n--- build.ninja\n{}", msg, text),
+                    replay,
+                );
+                None
+            }
+            (Ok(Ok(dump)), Err(re)) => {
+                self.res.violation(
+                    &format!("{}:invalid-manifest-accepted", family),
+                    || format!("expected error {:?} but loaded {} builds\n--- build.ninja\n{}", re, dump.builds.len(), text),
+                    replay,
+                );
+                None
+            }
+            (Ok(Err(e)), Err(re)) => {
+                let msg = e.to_string();
+                if error_matches(&msg, &re) {
+                    self.res.nontrivial += 1;
+                    self.res.outcome(&format!("{}:err-{}", family, format!("{:?}", re).split(['(', ' ', '{']).next().unwrap_or("")));
+                } else {
+                    self.res.violation(
+                        &format!("{}:wrong-error", family),
+                        || format!("expected {:?}, got {:?}\n--- build.ninja\n{}", re, msg, text),
+                        replay,
+                    );
+                }
+                None
+            }
+        }
+    }
+}
+
+fn check_corpus_entry(
+    ck: &mut Checker,
+    set: &ManifestSet,
+    idx: usize,
+    family: &str,
+    choices: &mut dyn FnMut(&[usize], &mut dyn FnMut(&[usize])),
+    mut mark: impl FnMut(&[usize]),
+) {
+    let s = spell_set(set);
+    let id = json!({"index": idx});
+    let mut canonical_dump: Option<GraphDump> = None;
+    let mut first = true;
+    let mut f = |choice: &[usize]| {
+        mark(choice);
+        let d = ck.check(set, &s, choice, family, &id);
+        if first {
+            canonical_dump = d;
+            first = false;
+            if idx % 211 == 0 {
+                let r = render_set(&s, choice);
+                ck.res.sample(|| json!({"family": family, "manifest": r.texts[0]}));
+            }
+        } else if let (Some(c), Some(d)) = (&canonical_dump, &d) {
+            // Spelling independence: identical dump except locations
+            // (line numbers legitimately move with continuations).
+            let mut a = c.clone();
+            let mut b = d.clone();
+            for x in a.builds.iter_mut().chain(b.builds.iter_mut()) {
+                x.location.clear();
+            }
+            if a != b {
+                let r = render_set(&s, choice);
+                let job = ck.job.clone();
+                let cv = choice.to_vec();
+                ck.res.violation(
+                    &format!("{}:spelling-dependent", family),
+                    || format!("dump differs from the canonical spelling's\n--- build.ninja\n{}", r.texts[0]),
+                    || json!({"job": job, "id": {"index": idx}, "choice": cv, "files": [["build.ninja", r.texts[0]]]}),
+                );
+            }
+        }
+    };
+    choices(&s.radices, &mut f);
+}
+
+fn run_corpus(ctx: &mut Ctx, res: &mut ShardResult, corpus: Vec<ManifestSet>, dev: Option<usize>, family: &str) {
+    let mut ck = Checker {
+        res,
+        job: ctx.job.clone(),
+        last_written: BTreeMap::new(),
+    };
+    if let Some(case) = ctx.replay.clone() {
+        let idx = case["id"]["index"].as_u64().expect("index") as usize;
+        let choice: Vec<usize> = case["choice"].as_array().expect("choice").iter().map(|x| x.as_u64().unwrap() as usize).collect();
+        let set = &corpus[idx];
+        check_corpus_entry(&mut ck, set, idx, family, &mut |radices, f| {
+            f(&vec![0; radices.len()]);
+            if choice.iter().any(|&c| c != 0) {
+                f(&choice);
+            }
+        }, |_| {});
+        return;
+    }
+    for (idx, set) in corpus.iter().enumerate() {
+        if idx as u64 % ctx.nshards != ctx.shard {
+            continue;
+        }
+        let marker = &ctx.marker;
+        check_corpus_entry(&mut ck, set, idx, family, &mut |radices, f| match dev {
+            Some(d) => for_deviations(radices, d, f),
+            None => for_product(radices, f),
+        }, |choice| marker.set(idx as u64, format!("{} #{} {:?}", family, idx, choice).as_bytes()));
+    }
+}
+
+/// All pairs of deviations restricted to the slots of the build line, on a
+/// few representative shapes (covers two-slot interactions in quick tier).
+fn corpus_pairs() -> Vec<ManifestSet> {
+    corpus_build_shapes()
+        .into_iter()
+        .enumerate()
+        .filter(|(i, _)| {
+            // every 7 consecutive entries share a shape (path rotation);
+            // take rotation 2 of shapes whose code hits each section pattern
+            i % 7 == 2 && (i / 7) % 5 == 0
+        })
+        .map(|(_, m)| m)
+        .collect()
+}
+
+fn scope_job(ctx: &mut Ctx, res: &mut ShardResult, max_present: usize) {
+    let mut ck = Checker {
+        res,
+        job: ctx.job.clone(),
+        last_written: BTreeMap::new(),
+    };
+    let radices = vec![C11_EXPRS.len() + 1; C11_SLOTS];
+    let mut idx = 0u64;
+    let (shard, nshards) = (ctx.shard, ctx.nshards);
+    if let Some(case) = ctx.replay.clone() {
+        let assign: Vec<usize> = case["id"]["assign"].as_array().expect("assign").iter().map(|x| x.as_u64().unwrap() as usize).collect();
+        let placement = match case["id"]["placement"].as_u64().unwrap_or(0) {
+            0 => Placement::Main,
+            1 => Placement::Included,
+            _ => Placement::Subninja,
+        };
+        let set = c11_manifest(&assign, placement);
+        let s = spell_set(&set);
+        let choice = vec![0; s.radices.len()];
+        ck.check(&set, &s, &choice, "scope", &case["id"]);
+        return;
+    }
+    for_deviations(&radices, max_present, &mut |assign| {
+        idx += 1;
+        if idx % nshards != shard {
+            return;
+        }
+        // $in/$out are only meaningful in rule-level slots (3, 4).
+        for (slot, &a) in assign.iter().enumerate() {
+            if a >= 6 && slot != 3 && slot != 4 {
+                return;
+            }
+        }
+        for placement in [Placement::Main, Placement::Included, Placement::Subninja] {
+            let set = c11_manifest(assign, placement);
+            let s = spell_set(&set);
+            let choice = vec![0; s.radices.len()];
+            ctx.marker.set(idx, format!("scope {:?} {:?}", assign, placement).as_bytes());
+            let id = json!({"assign": assign, "placement": placement as usize});
+            ck.check(&set, &s, &choice, "scope", &id);
+            if idx % 20_011 == 0 && placement == Placement::Included {
+                let r = render_set(&s, &choice);
+                ck.res.sample(|| json!({"family": "scope", "build.ninja": r.texts[0], "child.ninja": r.texts.get(1)}));
+            }
+        }
+    });
+}
+
+// --- C14 -------------------------------------------------------------------
+
+static SAVED_STDOUT: std::sync::atomic::AtomicI32 = std::sync::atomic::AtomicI32::new(-1);
+
+fn capture_stdout_end() {
+    use std::io::Write;
+    let _ = std::io::stdout().flush();
+    let saved = SAVED_STDOUT.swap(-1, std::sync::atomic::Ordering::SeqCst);
+    if saved >= 0 {
+        unsafe {
+            libc::dup2(saved, 1);
+            libc::close(saved);
+        }
+    }
+}
+
+fn capture_stdout_begin() {
+    use std::os::fd::AsRawFd;
+    use std::io::Write;
+    let _ = std::io::stdout().flush();
+    let saved = unsafe { libc::dup(1) };
+    SAVED_STDOUT.store(saved, std::sync::atomic::Ordering::SeqCst);
+    let f = std::fs::OpenOptions::new()
+        .read(true)
+        .write(true)
+        .create(true)
+        .truncate(true)
+        .open("stdout.cap")
+        .expect("open capture file");
+    unsafe {
+        libc::dup2(f.as_raw_fd(), 1);
+    }
+}
+
+fn capture_stdout_reset() {
+    unsafe {
+        libc::ftruncate(1, 0);
+        libc::lseek(1, 0, libc::SEEK_SET);
+    }
+}
+
+fn capture_stdout_read() -> String {
+    use std::io::Write;
+    let _ = std::io::stdout().flush();
+    std::fs::read_to_string("stdout.cap").unwrap_or_default()
+}
+
+fn dups_sets(e1: &[Expr], i1: &[Expr]) -> Vec<ManifestSet> {
+    let seconds = c14_out_lists(2);
+    let thirds = c14_out_lists(1);
+    let rule = Stmt::Rule("r".into(), vec![("command".into(), expr("touch out"))]);
+    let b1 = BuildStmt {
+        outs: e1.to_vec(),
+        implicit_outs: i1.to_vec(),
+        rule: "r".into(),
+        ..Default::default()
+    };
+    // One statement alone, then with a second (same file / included /
+    // subninja'd before), then with a third.
+    let mut sets: Vec<ManifestSet> = vec![ManifestSet {
+        files: vec![("build.ninja".into(), vec![rule.clone(), Stmt::Build(b1.clone())])],
+    }];
+    for (e2, i2) in &seconds {
+        let b2 = BuildStmt {
+            outs: e2.clone(),
+            implicit_outs: i2.clone(),
+            rule: "r".into(),
+            ..Default::default()
+        };
+        sets.push(ManifestSet {
+            files: vec![(
+                "build.ninja".into(),
+                vec![rule.clone(), Stmt::Build(b1.clone()), Stmt::Build(b2.clone())],
+            )],
+        });
+        sets.push(ManifestSet {
+            files: vec![
+                (
+                    "build.ninja".into(),
+                    vec![rule.clone(), Stmt::Build(b1.clone()), Stmt::Include(lit("inc.ninja"))],
+                ),
+                ("inc.ninja".into(), vec![Stmt::Build(b2.clone())]),
+            ],
+        });
+        sets.push(ManifestSet {
+            files: vec![
+                (
+                    "build.ninja".into(),
+                    vec![rule.clone(), Stmt::Subninja(lit("inc.ninja")), Stmt::Build(b1.clone())],
+                ),
+                ("inc.ninja".into(), vec![Stmt::Build(b2.clone())]),
+            ],
+        });
+        if e1.len() + i1.len() <= 2 {
+            for (e3, _) in &thirds {
+                let b3 = BuildStmt {
+                    outs: e3.clone(),
+                    rule: "r".into(),
+                    ..Default::default()
+                };
+                sets.push(ManifestSet {
+                    files: vec![(
+                        "build.ninja".into(),
+                        vec![rule.clone(), Stmt::Build(b1.clone()), Stmt::Build(b2.clone()), Stmt::Build(b3)],
+                    )],
+                });
+            }
+        }
+    }
+    sets
+}
+
+fn dups_check(set: &ManifestSet, id: &Value, job: &str, res: &mut ShardResult) {
+    let s = spell_set(set);
+    let choice = vec![0; s.radices.len()];
+    capture_stdout_reset();
+    let before = res.violation_count;
+    let dump = {
+        let mut ck = Checker {
+            res,
+            job: job.to_string(),
+            last_written: BTreeMap::new(),
+        };
+        ck.check(set, &s, &choice, "dups", id)
+    };
+    if res.violation_count != before {
+        return;
+    }
+    let r = render_set(&s, &choice);
+    let refg = ref_load(set, &r.lines);
+    let out = capture_stdout_read();
+    let warns = out
+        .lines()
+        .filter(|l| l.starts_with("n2: warn:") && l.contains("is repeated in output list"))
+        .count();
+    if let (Some(dump), Ok(refg)) = (&dump, &refg) {
+        // Accepted: a warning iff something was repeated; explicit count
+        // within bounds (the raw count is what is dumped).
+        let repeated = refg.builds.iter().any(|b| b.repeated_output);
+        let text = r.texts[0].clone();
+        let rp = || json!({"job": job, "id": id, "files": [["build.ninja", text]]});
+        if repeated != (warns > 0) {
+            res.violation(
+                "dups:warning-mismatch",
+                || format!("repeated output: {}, warnings printed: {}\n{}", repeated, warns, text),
+                rp,
+            );
+        }
+        for b in &dump.builds {
+            if b.explicit_outs > b.outs.len() {
+                res.violation(
+                    "dups:explicit-count-exceeds-outputs",
+                    || format!("explicit out count {} > {} outputs\n{}", b.explicit_outs, b.outs.len(), text),
+                    rp,
+                );
+            }
+        }
+    }
+}
+
+fn dups_job(ctx: &mut Ctx, res: &mut ShardResult, max_len: usize) {
+    capture_stdout_begin();
+    let firsts = c14_out_lists(max_len);
+    let job = ctx.job.clone();
+    if let Some(case) = ctx.replay.clone() {
+        let i = case["id"]["first"].as_u64().expect("first") as usize;
+        let k = case["id"]["set"].as_u64().expect("set") as usize;
+        let (e1, i1) = &firsts[i];
+        let sets = dups_sets(e1, i1);
+        dups_check(&sets[k], &case["id"], &job, res);
+        capture_stdout_end();
+        return;
+    }
+    for (i, (e1, i1)) in firsts.iter().enumerate() {
+        if i as u64 % ctx.nshards != ctx.shard {
+            continue;
+        }
+        let sets = dups_sets(e1, i1);
+        for (k, set) in sets.iter().enumerate() {
+            ctx.marker.set(i as u64, format!("dups first={} set={}", i, k).as_bytes());
+            let id = json!({"first": i, "set": k});
+            dups_check(set, &id, &job, res);
+            if i % 97 == 0 && k == 7 {
+                let (t, _) = render_canonical(&set.files[0].1);
+                res.sample(|| json!({"family": "dups", "manifest": t}));
+            }
+        }
+    }
+    capture_stdout_end();
+}
+
+// --- C13 node identity -----------------------------------------------------
+
+const NODE_SPELLINGS: &[&str] = &[
+    // location a/b
+    "a/b", "./a/b", "a//b", "a/./b", "a/x/../b", "x/../a/b", "./a/./b", "a/x/y/../../b", "x/./../a/b", "a\\b",
+    // location c
+    "c", "./c", "x/../c", "././c", "x/y/../../c", "x//..//c", ".//c", "x/../y/../c", "./x/../c", "c/",
+    // location ../d
+    "../d", "./../d", "x/../../d", "../x/../d", ".././d", "..//d", "../d/.", "x/../../y/../d", "./x/../../d", "..\\d",
+];
+
+fn nodeid_job(ctx: &mut Ctx, res: &mut ShardResult) {
+    crate::exec::install_hooks();
+    let job = ctx.job.clone();
+    let canon = |s: &str| String::from_utf8(vcore::refcanon::canon(s.as_bytes())).unwrap();
+    let mut idx = 0u64;
+    let only: Option<(String, String)> = ctx.replay.as_ref().map(|c| {
+        (c["p"].as_str().unwrap_or("").to_string(), c["q"].as_str().unwrap_or("").to_string())
+    });
+    for p in NODE_SPELLINGS {
+        for q in NODE_SPELLINGS {
+            idx += 1;
+            match &only {
+                Some((a, b)) => {
+                    if a != p || b != q {
+                        continue;
+                    }
+                }
+                None => {
+                    if idx % ctx.nshards != ctx.shard {
+                        continue;
+                    }
+                }
+            }
+            ctx.marker.set(idx, format!("{} {}", p, q).as_bytes());
+            let same = canon(p) == canon(q);
+            // (1) manifest output p, manifest input q.
+            res.evaluations += 1;
+            let text = format!("rule r\n  command = c\nbuild {}: r\nbuild out: r {}\n", p, q);
+            let replay = || json!({"job": job, "p": p, "q": q});
+            match catch(|| n2::verif::load_bytes("build.ninja", text.as_bytes())) {
+                Ok(Ok(d)) => {
+                    let qn = &d.builds[1].ins[0];
+                    let node = d.files.iter().find(|f| f.0 == *qn);
+                    let produced_by_first = node.map(|f| f.1 == Some(0)).unwrap_or(false);
+                    let dup_names = d.files.iter().filter(|f| f.0 == *qn).count() != 1;
+                    if produced_by_first != same || dup_names {
+                        res.violation(
+                            "nodeid:manifest-spellings",
+                            || format!("output {:?} and input {:?}: same location = {}, but input node {:?} has producer {:?}", p, q, same, qn, node.map(|f| f.1)),
+                            replay,
+                        );
+                        continue;
+                    }
+                    if p != q {
+                        res.nontrivial += 1;
+                    }
+                    res.outcome(if same { "manifest:same-node" } else { "manifest:distinct-nodes" });
+                }
+                other => {
+                    res.violation(
+                        "nodeid:load-failed",
+                        || format!("{:?}", other.map(|r| r.map(|_| ()).map_err(|e| e.to_string())).map_err(|p| p.message)),
+                        replay,
+                    );
+                    continue;
+                }
+            }
+            // (2) manifest output p, command-line target q (all phony, so
+            // nothing runs).
+            res.evaluations += 1;
+            crate::exec::clear_dir();
+            std::fs::write("build.ninja", format!("build {}: phony\n", p)).unwrap();
+            let r = catch(|| {
+                n2::verif::verif_build(n2::verif::BuildOpts {
+                    targets: vec![q.to_string()],
+                    parallelism: 1,
+                    ..Default::default()
+                })
+            });
+            match r {
+                Ok(Ok(Some(0))) if same => res.outcome("target:resolved"),
+                Ok(Err(e)) if !same && e.to_string().contains("unknown path requested") => {
+                    res.outcome("target:unknown")
+                }
+                other => res.violation(
+                    "nodeid:target-spelling",
+                    || format!("manifest output {:?}, requested target {:?} (same location = {}): {:?}", p, q, same, other.map(|r| r.map_err(|e| e.to_string())).map_err(|p| p.message)),
+                    replay,
+                ),
+            }
+        }
+    }
+}
+
+pub fn run(ctx: &mut Ctx) -> ShardResult {
+    let mut res = ShardResult::default();
+    let job = ctx.job.clone();
+    let parts: Vec<&str> = job.split(':').collect();
+    let num = |i: usize| -> usize { parts.get(i).and_then(|s| s.parse().ok()).expect("job parameter") };
+    match parts[1] {
+        "shapes" => run_corpus(ctx, &mut res, corpus_build_shapes(), Some(num(2)), "shapes"),
+        "attrs" => run_corpus(ctx, &mut res, corpus_attributes(), Some(num(2)), "attrs"),
+        "seq" => run_corpus(ctx, &mut res, corpus_sequences(num(2)), Some(num(3)), "seq"),
+        "pairs" => run_corpus(ctx, &mut res, corpus_pairs(), Some(2), "pairs"),
+        "scope" => scope_job(ctx, &mut res, num(2)),
+        "dups" => dups_job(ctx, &mut res, num(2)),
+        "nodeid" => nodeid_job(ctx, &mut res),
+        other => panic!("unknown load job {}", other),
+    }
+    res
 }
